@@ -12,6 +12,7 @@ import Pandora.Proofs.C17Cast
 import Pandora.Proofs.C17Struct
 import Pandora.Proofs.C17Path
 import Pandora.Proofs.C17Subst
+import Pandora.Proofs.C17Valid
 import Pandora.Spec.C17
 
 namespace Pandora.Props.C17
@@ -280,14 +281,72 @@ theorem C17_constraint_tags :
     (∀ n u, tagFail (.min n) (.uint u) = decide ((u : Int) < n)) ∧
     (∀ n x, tagFail (.min n) (.float x) = !x.geInt n) ∧
     (∀ ns i, tagFail (.minTime ns) (.int i) = decide (i < ns)) ∧
+    (∀ ns i, tagFail (.maxTime ns) (.int i) = decide (ns < i)) ∧
     (∀ s, tagFail .endpoint (.str s) = !endpointOk s) ∧
+    (∀ s, tagFail .urlPath (.str s) = !urlPathOk s) ∧
     (∀ alts s, tagFail (.oneOf alts) (.str s) = !alts.contains s) ∧
     (∀ ts v, v.isZero = true → tagsFail (.omitempty :: ts) v = false) ∧
     (∀ t ts v, tagFail t v = true → tagsFail (t :: ts) v = true) := by
-  refine ⟨fun _ => rfl, fun _ _ => rfl, fun _ _ => rfl, fun _ _ => rfl, fun _ _ => rfl, fun _ => rfl, fun _ _ => rfl, ?_, ?_⟩
+  refine ⟨fun _ => rfl, fun _ _ => rfl, fun _ _ => rfl, fun _ _ => rfl, ?_, ?_, fun _ => rfl, fun _ => rfl, fun _ _ => rfl, ?_, ?_⟩
+  · intro ns i; simp only [tagFail, boundShape, Bool.true_and]; rw [decide_lt_not_le]
+  · intro ns i; simp only [tagFail, boundShape, Bool.true_and]; rw [decide_lt_not_le]
   · intro ts v h; simp [tagsFail, h]
   · intro t ts v h
     cases t <;> simp_all [tagsFail, tagFail]
+
+/-- **The `endpoint` constraint ("host:port" or ":port", port 1 … 65535).** For EVERY text: without a colon it is
+refused; whatever stands in front of the last colon — nothing, a host name, brackets —, a port part that is empty,
+has a character that is no digit, or is the number 0 or above 65535 is refused (`:99999`, `:0`, `:http`, `:80a`, `:`
+are no endpoints: an empty host does not excuse the port); `:port` and `host:port` with a plain host name / dotted
+quad and a decimal port 1 … 65535 are accepted. -/
+theorem C17_endpoint_constraint :
+    (∀ s, (∀ c ∈ s, c ≠ ':') → endpointOk s = false) ∧
+    (∀ host port, (∀ c ∈ port, c ≠ ':') → portClass port = some false → endpointOk (host ++ ':' :: port) = false) ∧
+    (∀ host port, portClass port = some true → (host = [] ∨ simpleHost host = true) →
+      endpointOk (host ++ ':' :: port) = true) ∧
+    (∀ s b, endpointDemand s = some b → tagFail .endpoint (.str s) = !b) := by
+  refine ⟨?_, ?_, ?_, ?_⟩
+  · intro s h
+    apply endpoint_demand
+    unfold endpointDemand
+    rw [cutLastColon_none s h]
+  · intro host port hp hc
+    apply endpoint_demand
+    unfold endpointDemand
+    rw [cutLastColon_join host port hp]
+    simp [hc]
+  · intro host port hc hh
+    apply endpoint_demand
+    unfold endpointDemand
+    rw [cutLastColon_join host port (fun c h => (digits_chars port (class_true_digits port hc) c h).1)]
+    have : (host.isEmpty || simpleHost host) = true := by
+      rcases hh with rfl | hs
+      · rfl
+      · simp [hs]
+    simp [hc, this]
+  · intro s b h
+    simp [tagFail, endpoint_demand s b h]
+
+/-- **The `url-path` constraint** is exactly the language of `^(/[a-zA-Z0-9._~!$&'()*+,;=:@%-]+)+$` (the regular
+expression regenerated from the source and pinned by `Bridge.Config.url_path_validation`): a `/` followed by one or
+more non-empty segments of those characters, separated by single slashes. -/
+theorem C17_url_path_constraint (s : Str) :
+    urlPathOk s = urlPathDemand s ∧ tagFail .urlPath (.str s) = !urlPathDemand s :=
+  ⟨urlPath_demand s, by simp [tagFail, urlPath_demand]⟩
+
+/-- **Documented constraints are enforced, with inclusive bounds.** Whenever the documentation's reading of a field's
+constraints (`Spec.demandAll`: required, min, min-time / max-time with the bound itself allowed, endpoint, url-path,
+one-of; `omitempty` excusing the zero value) says the value the field ends up with — given or default — violates one
+of them, the configuration is rejected; when it says all are met, the field's own tags do not reject it. -/
+theorem C17_documented_constraint (fl : Flags) (env : Env) (fs : Fields) (kvs : List (Str × Val)) (f : FInfo) (s : Schema)
+    (hin : FieldIn f s fs) :
+    (demandAll f.tags (fieldResult fl env kvs f s).val = some false →
+      (decodeAndValidate fl env (.struct fs) (.map kvs)).rejected = true) ∧
+    (demandAll f.tags (fieldResult fl env kvs f s).val = some true →
+      tagsFail f.tags (fieldResult fl env kvs f s).val = false) ∧
+    (∀ t v b, demand t v = some b → tagFail t v = !b) :=
+  ⟨fun h => (C17_constraint fl env fs kvs f s hin).1 ((demandAll_tagsFail _ _).1 h),
+    fun h => (demandAll_tagsFail _ _).2 h, demand_tagFail⟩
 
 /-! ## placeholders -/
 
@@ -736,6 +795,39 @@ example :
         ((lookup ["DiscardOverflow".toList] p).map fun b => scalarEq b (.bool false),
          (lookup ["DiscardOverflow".toList] q).map fun b => scalarEq b (.bool true))
       | _ => (none, none)) = some (some true, some true) := by decide
+
+/-- C17_endpoint_constraint / C17_documented_constraint: host-less forms with a bad port are refused, the bound of
+`min-time` is allowed, one nanosecond less is not -/
+example :
+    let bad := [":99999", ":0", ":http", ":80a", ":", "no-port", "localhost:65536", "a:b:80", "[::1]:0", ":-1", ": 80"]
+    let good := [":8080", ":1", ":65535", "localhost:80", "127.0.0.1:8080", "example.org:443", "[localhost]:80", ":080", ":+80"]
+    (bad.all fun e => !endpointOk e.toList) = true ∧ (good.all fun e => endpointOk e.toList) = true ∧
+    portClass "99999".toList = some false ∧ portClass "".toList = some false ∧ portClass "80a".toList = some false ∧
+    portClass "8080".toList = some true ∧ simpleHost "example.org".toList = true ∧
+    endpointDemand ":99999".toList = some false ∧ endpointDemand "example.org:443".toList = some true ∧
+    endpointDemand ":+80".toList = none ∧ endpointDemand "[::1]:80".toList = none ∧
+    demandAll [.endpoint, .required] (.str ":0".toList) = some false ∧
+    demandAll [.minTime 1000000] (.int 1000000) = some true ∧ demandAll [.minTime 1000000] (.int 999999) = some false ∧
+    demandAll [.maxTime 1000000] (.int 1000000) = some true ∧ demandAll [.maxTime 1000000] (.int 1000001) = some false ∧
+    demandAll [.omitempty, .oneOf ["a".toList]] (.str []) = some true := by decide
+
+/-- C17_url_path_constraint -/
+example :
+    (["/a", "/a/b", "/~user/:x@y;z=1", "/%41"].all fun e => urlPathOk e.toList) = true ∧
+    (["", "/", "a", "/a/", "//a", "/a//b", "/a b", "/a?x", "/a#"].all fun e => !urlPathOk e.toList) = true := by decide
+
+/-- the literal grammar of the casts (strconv with base 0): prefixes, octal, underscores, exponents -/
+example :
+    parseIntLit "0x10".toList = some 16 ∧ parseIntLit "-0X80".toList = some (-128) ∧ parseIntLit "0b101".toList = some 5 ∧
+    parseIntLit "0o17".toList = some 15 ∧ parseIntLit "017".toList = some 15 ∧ parseIntLit "1_000".toList = some 1000 ∧
+    parseIntLit "0_7".toList = some 7 ∧ parseIntLit "0x_1".toList = some 1 ∧ parseIntLit "00".toList = some 0 ∧
+    parseIntLit "_1".toList = none ∧ parseIntLit "1_".toList = none ∧ parseIntLit "1__0".toList = none ∧
+    parseIntLit "08".toList = none ∧ parseIntLit "0x".toList = none ∧ parseIntLit "0b2".toList = none ∧
+    parseIntLit "0_x1".toList = none ∧ parseUintLit "+1".toList = none ∧
+    ((parseDecLit "1.5E-2".toList).map fun d => scalarEq (.float d) (.float ⟨false, 15, 3⟩)) = some true ∧
+    ((parseDecLit "-.5e1".toList).map fun d => scalarEq (.float d) (.float ⟨true, 5, 0⟩)) = some true ∧
+    ((parseDecLit "5.".toList).map fun d => scalarEq (.float d) (.float ⟨false, 5, 0⟩)) = some true ∧
+    parseDecLit "1e".toList = none ∧ parseDecLit "e3".toList = none ∧ parseDecLit ".".toList = none := by decide
 
 end Examples
 
